@@ -22,6 +22,26 @@ func (x *Exec) guardCheck(st *State, p Val, write bool) {
 }
 
 func (x *Exec) guardCheckField(st *State, field string, ref Term, write bool) {
+	if x.spec.OnceBody {
+		return
+	}
+	if owner, ok := x.eng.confined[field]; ok && !isFreshTerm(ref) {
+		cur := x.spec.Goroutine
+		if cur == "" {
+			cur = "main"
+		}
+		kind := "read"
+		if write {
+			kind = "write"
+		}
+		name := fmt.Sprintf("confined:%s:%s", field, kind)
+		if cur != owner {
+			st.obligeStaticFail(name, []string{"C09"}, fmt.Sprintf("%s of %s (confined to goroutine %q) from goroutine %q without synchronisation", kind, field, owner, cur))
+		} else {
+			st.obls = append(st.obls, Obl{Name: name, Tags: []string{"C09"}, Goal: TTrue, PCLen: len(st.pc), Static: "ok", Desc: field + " accessed by its owning goroutine"})
+		}
+		return
+	}
 	mutex, ok := x.eng.guards[field]
 	if !ok {
 		return
@@ -36,6 +56,10 @@ func (x *Exec) guardCheckField(st *State, field string, ref Term, write bool) {
 	name := fmt.Sprintf("guard:%s:%s", field, kind)
 	var eqs []Term
 	for _, h := range st.held {
+		if strings.HasPrefix(h.Field, "once:") {
+			st.obls = append(st.obls, Obl{Name: name, Tags: []string{"C09"}, Goal: TTrue, PCLen: len(st.pc), Static: "ok", Desc: field + " initialised inside sync.Once.Do"})
+			return
+		}
 		if h.Field != mutex {
 			continue
 		}
@@ -125,4 +149,78 @@ func (x *Exec) checkLockOrder(st *State, field string, ref Term, mode string) {
 		}
 	}
 	st.obls = append(st.obls, Obl{Name: name, Tags: []string{"C09"}, Goal: TTrue, PCLen: len(st.pc), Static: "ok", Desc: "lock acquired in level order"})
+}
+
+// lockSummary: the lock fields a function may acquire, transitively through static callees.
+func (e *Engine) lockSummary(fn *ssa.Function, depth int, seen map[*ssa.Function]bool) map[string]bool {
+	out := map[string]bool{}
+	if fn == nil || fn.Blocks == nil || depth > 8 || seen[fn] {
+		return out
+	}
+	seen[fn] = true
+	for _, b := range fn.Blocks {
+		for _, in := range b.Instrs {
+			var c *ssa.CallCommon
+			switch n := in.(type) {
+			case *ssa.Call:
+				c = n.Common()
+			case *ssa.Defer:
+				c = n.Common()
+			default:
+				continue
+			}
+			callee := c.StaticCallee()
+			if callee == nil {
+				continue
+			}
+			k := funcKey(callee)
+			if k == "(*sync.Mutex).Lock" || k == "(*sync.RWMutex).Lock" || k == "(*sync.RWMutex).RLock" {
+				if fa, ok := c.Args[0].(*ssa.FieldAddr); ok {
+					out[typeName(ptrElem(fa.X.Type()))+"."+fieldName(fa)] = true
+				}
+				continue
+			}
+			if inRepo(callee) {
+				for f := range e.lockSummary(callee, depth+1, seen) {
+					out[f] = true
+				}
+			}
+			// closures passed as arguments run inside the callee as well
+			for _, a := range c.Args {
+				if mc, ok := a.(*ssa.MakeClosure); ok {
+					for f := range e.lockSummary(mc.Fn.(*ssa.Function), depth+1, seen) {
+						out[f] = true
+					}
+				}
+			}
+		}
+	}
+	return out
+}
+
+// checkCalleeLocks: calling a contracted function acquires (and releases) the locks in its summary.
+func (x *Exec) checkCalleeLocks(st *State, fn *ssa.Function, key string) {
+	if st.dryWrites != nil || fn == nil {
+		return
+	}
+	sum := x.eng.lockSummary(fn, 0, map[*ssa.Function]bool{})
+	for _, field := range sortedKeys(sum) {
+		lvl, ok := x.eng.lockLevels[field]
+		if !ok {
+			continue
+		}
+		name := "order:" + field + "@" + shortFuncName(key)
+		bad := ""
+		for _, h := range st.held {
+			hl, hok := x.eng.lockLevels[h.Field]
+			if hok && hl >= lvl {
+				bad = fmt.Sprintf("calls %s, which acquires %s (level %d), while holding %s (level %d)", key, field, lvl, h.Field, hl)
+			}
+		}
+		if bad != "" {
+			st.obligeStaticFail(name, []string{"C09"}, bad)
+		} else {
+			st.obls = append(st.obls, Obl{Name: name, Tags: []string{"C09"}, Goal: TTrue, PCLen: len(st.pc), Static: "ok", Desc: "locks of the contracted callee are acquired in level order"})
+		}
+	}
 }
